@@ -51,8 +51,13 @@ def gen_map(cx, rng, regs, flag, ptrs, with_cond):
         else:
             p = rng.choice(ptrs)
             v = rng.choice([E.cst(rng.getrandbits(8), 32), rng.choice(regs)])
-            m[E.mem(p, 32, disp=rng.choice([0, 4]))] = m(v)
-            desc.append(("mem", str(p), str(v)))
+            d = rng.choice([0, 4])
+            if rng.random() < 0.25:
+                # a vector-valued pointer: the store goes to one of several addresses
+                p = E.vec([ptrs[0], ptrs[1]])
+                d = rng.choice([0, 4, -8])
+            m[E.mem(p, 32, disp=d)] = m(v)
+            desc.append(("mem", str(p), d, str(v)))
     if with_cond:
         c = (rng.choice(regs) == E.cst(rng.choice([0, 1, 7]), 32))
         m.conds = [c]
@@ -83,9 +88,15 @@ def check(run):
         try:
             m1, d1 = gen_map(cx, rng, regs, flag, ptrs, rng.random() < 0.25)
             m2, d2 = gen_map(cx, rng, regs, flag, ptrs, rng.random() < 0.25)
+        except Exception as x:
+            # building the operand maps is not the subject here (a second store through a vector-valued pointer can raise)
+            run.hist("map_construction_raised", type(x).__name__)
+            cx.conf.Cas.complexity = 0
+            continue
+        try:
             mm = merge(m1, m2, widening=widening)
         except Exception as x:
-            finds.setdefault("merge-raised|" + type(x).__name__, {"error": repr(x)[:200]})
+            finds.setdefault("merge-raised|" + type(x).__name__, {"error": repr(x)[:200], "m1": locals().get("d1"), "m2": locals().get("d2"), "widening": widening})
             continue
         finally:
             cx.conf.Cas.complexity = 0
@@ -103,8 +114,19 @@ def check(run):
         s0[flag] = E.cst(rng.getrandbits(1), 1)
         disagree = False
         case_rows = []
+        keys = []
         for loc in locs:
-            key = E.mem(loc, 32) if loc._is_ptr else loc
+            if loc._is_ptr and loc.base._is_vec:
+                # component locations of a store through a vector-valued pointer
+                for l in loc.base.l:
+                    keys.append((loc, E.mem(l, 32, loc.seg, loc.disp)))
+            else:
+                keys.append((loc, E.mem(loc, 32) if loc._is_ptr else loc))
+        seen_keys = set()
+        for loc, key in keys:
+            if str(key) in seen_keys:
+                continue
+            seen_keys.add(str(key))
             try:
                 r = mm[key]
                 v1, v2 = a1[key].simplify(), a2[key].simplify()
@@ -141,7 +163,8 @@ def check(run):
                 except Exception:
                     pass
             # model row: alternatives as atom ids (by rendering)
-            case_rows.append((str(loc), v1, v2, r, widening, thr))
+            if not any(d[0] == "mem" and "[" in d[1] for d in d1 + d2):        # joins under vector-pointer stores: membership oracle only
+                case_rows.append((str(loc), v1, v2, r, widening, thr))
         run.count((repr(d1), repr(d2), widening, thr), disagree)
         run.sample({"m1": d1, "m2": d2, "widening": widening, "threshold": thr}, 3)
         if len(rows) < (900 if quick else 9000):
